@@ -42,6 +42,8 @@ def run(ctx):
     wrappers.gc_chain(ctx, rep, roles, "C06", "R06.6")
     wrappers.contains_key(ctx, rep, roles, "C06", "R06.7")
     wrappers.state_readers(ctx, rep, roles, "C06", "R06.8")
+    from .. import identity
+    identity.check_keys(ctx, rep, "C06", "R06.9", ["kv"])
 
 
 def variant_table(fx, fn, self_name="self"):
